@@ -267,7 +267,11 @@ def decode_postconditions(group, i, hs, body, out):
 class C13:
     pid = "C13"
     profiles = ["dev"]
-    projection = staticmethod(proj_full)
+
+    @staticmethod
+    def projection(res):
+        # C13 is about the returned body only (§4.3); the header contract is C14's
+        return strip_ann(res).split(" | h=")[0]
 
     @staticmethod
     def generate(rng, tier, tree, ov):
@@ -324,6 +328,7 @@ class C14:
             if rng.chance(1, 10):
                 body = gen.mutate(rng, body)
                 info["expected_out"] = None
+                info["corrupt"] = False     # no longer a pure truncation: arbitrary damage of a bare deflate stream may decode
             eo = info["expected_out"]
             g = Group("h%d" % k, "decode-headers", {"headers": [[a.hex(), b.hex()] for a, b in hs], "body": body.hex() if len(body) < 4000 else None,
                                                      "expected_out": eo.hex() if (eo is not None and len(eo) < 4000) else None, "corrupt": info["corrupt"]})
@@ -397,7 +402,7 @@ class C15:
                 for b in flips:
                     e2 = bytearray(enc)
                     e2[b // 8] ^= 1 << (b % 8)
-                    g.add("bitflip", "DECODE %d %s %s" % (tree, hdrs_field(hs), hx(bytes(e2))), {"bit": b, "nocmp": True})
+                    g.add("bitflip", "DECODE %d %s %s" % (tree, hdrs_field(hs), hx(bytes(e2))), {"bit": b})
             # stacked: the damaged stream under an intact outer gzip layer
             if rng.chance(1, 3) and len(enc) > 2:
                 c = rng.below(len(enc))
@@ -439,12 +444,14 @@ class C15:
                     e2 = bytearray(enc)
                     e2[m.meta["bit"] // 8] ^= 1 << (m.meta["bit"] % 8)
                     e2 = bytes(e2)
+                    # the check the decoder applied sits where the (damaged) deflate data ended, which need not be
+                    # the end of the stream any more (bytes after the first member are ignored): the content is
+                    # consistent iff its checksum is stored somewhere in the stream
                     if kind == "gzip":
                         import struct as _s
-                        crc, isz = _s.unpack("<II", e2[-8:])
-                        good = (zlib.crc32(result) & 0xFFFFFFFF) == crc and (len(result) & 0xFFFFFFFF) == isz
+                        good = _s.pack("<II", zlib.crc32(result) & 0xFFFFFFFF, len(result) & 0xFFFFFFFF) in e2[10:]
                     else:
-                        good = (zlib.adler32(result) & 0xFFFFFFFF) == int.from_bytes(e2[-4:], "big")
+                        good = (zlib.adler32(result) & 0xFFFFFFFF).to_bytes(4, "big") in e2[2:]
                     if not good:
                         fails.append(Failure(group, "content-check", "bit %d flipped: success with content that contradicts the stored checksum" % m.meta["bit"], [i]))
         return fails
@@ -468,6 +475,7 @@ W1252_HIGH = [0x20AC, 0x81, 0x201A, 0x192, 0x201E, 0x2026, 0x2020, 0x2021, 0x2C6
               0x90, 0x2018, 0x2019, 0x201C, 0x201D, 0x2022, 0x2013, 0x2014, 0x2DC, 0x2122, 0x161, 0x203A, 0x153, 0x9D, 0x17E, 0x178]
 
 INVALID_UTF8 = [b"\xc0\xaf", b"\xe0\x80\xaf", b"\xed\xa0\x80", b"\xf4\x90\x80\x80", b"\xe2\x82", b"\x80", b"\xff", b"\xf8\x88\x80\x80\x80", b"a\xc3", b"\xc3(", b"\xf0\x9f\x98"]
+BOMS = [b"\xef\xbb\xbf", b"\xff\xfe", b"\xfe\xff", b"\xef\xbb", b"\xff", b"\xfe", b"\x00\x00\xfe\xff", b"\x2b\x2f\x76"]
 VALID_UTF8 = [b"", b"abc", "héllo".encode(), "€".encode(), "\U0001F600".encode(), "�".encode(), b"\x00", "ä".encode(), "퟿".encode(), "\U0010FFFF".encode()]
 
 
@@ -564,6 +572,9 @@ def gen_text_case(rng):
         body = gen.rand_bytes(rng, rng.below(20))
     else:
         body = bytes(range(256))
+    if rng.chance(1, 6):
+        # a byte-order mark in front must not override the charset (nor be stripped)
+        body = rng.pick(BOMS) + rng.pick([b"", b"hello", b"A\x00B\x00", b"\x00A\x00B", "é".encode(), b"\xa3\x31\x30"]) if rng.chance(3, 4) else rng.pick(BOMS) + body
     return hs, body
 
 
